@@ -115,6 +115,29 @@ class TxnEngine(pair.PairEngine):
             for e_ in cf.err_edges:
                 edge_cls.setdefault(e_, []).append((cb, 'fail'))
         fwd_calls = {cb for cb, cf in cflows.items() if cf.forward_blocks}
+        # class-preserving combinators (`r.map_err(f)`, `r.inspect_err(f)`, `r.map(f)`): the result is a failure exactly
+        # when the receiver is; an exit that forwards such a call forwards the calls that produced the receiver
+        import valueflow as _vf
+        alias = {}
+        for cb_ in cflows:
+            t_ = body.blocks[cb_].term
+            if t_.k != 'call' or (t_.callee or t_.resolved or '').rsplit('::', 1)[-1] not in ('map_err', 'inspect_err', 'map', 'inspect') \
+                    or not t_.args or t_.args[0].place is None or (t_.resolved or t_.callee or '') in self.prog.bodies:
+                continue
+            org = []
+            for leaf in _vf.sources(body, self.mod.aliases(q), t_.args[0].place.local):
+                if leaf[0] == 'call' and (leaf[1].resolved or leaf[1].callee or '') in self.prog.bodies:
+                    org.append(leaf[2])
+            if org:
+                alias[cb_] = tuple(sorted(set(org)))
+        preserved = set()
+        for bb_, ex_ in list(exits.items()):
+            if isinstance(ex_, tuple) and ex_[0] == 'fwd' and any(c in alias for c in ex_[1]):
+                new_cbs = []
+                for c in ex_[1]:
+                    new_cbs += list(alias.get(c, (c,)))
+                exits[bb_] = ('fwd', tuple(sorted(set(new_cbs))))
+                preserved |= set(new_cbs)
         # variant edges: `match outcome { Inserted {..} => .., Skipped {..} => .. }` on the InsertionOutcome a call returned
         skip_idx = None
         adt = self.prog.adts.get(OUTCOME_TY)
@@ -148,6 +171,7 @@ class TxnEngine(pair.PairEngine):
         for ex_ in exits.values():
             if isinstance(ex_, tuple) and ex_[0] == 'okpay':
                 outcome_calls |= set(ex_[1])
+        outcome_calls |= preserved
         m = {'exits': exits, 'edge_cls': edge_cls, 'rt': rt, 'fwd_calls': fwd_calls, 'outcome_calls': outcome_calls}
         self.meta[q] = m
         return m
@@ -239,6 +263,31 @@ class TxnEngine(pair.PairEngine):
             return {(0, sv, tag, ex) for (m, sv, tag, ex) in st}
         if k == 'unsnap':
             return {(m, 0, tag, ex) for (m, sv, tag, ex) in st}
+        if k == 'call_if_fail':
+            # closure handed to an error-path combinator (`r.map_err(|e| { restore; e })`): it runs exactly when the
+            # receiver is a failure; the receiver's outcome is known from the tags of the calls that produced it
+            origins = e[4] if len(e) > 4 else ()
+            out = set()
+            for (m, sv, tag, ex) in st:
+                known = None
+                for (cb_, cls_) in reversed(tag or ()):
+                    if cb_ in origins:
+                        known = cls_
+                        break
+                if known in ('ok', 'skip'):
+                    out.add((m, sv, tag, ex))
+                    continue
+                ran = {(m2, sv, tag, ex) for (_c, m2) in self.analyse(e[1], e[2], entry_m=m, entry_sv=sv)}
+                out |= ran
+                if known is None:
+                    out.add((m, sv, tag, ex))
+            return out
+        if k in ('call', 'call_nob') and self.prog.bodies[e[1]].kind == 'closure' and self.closure_restores(e[1], e[2]) and \
+                not (self.prog.bodies[q].blocks[b].term.k == 'call' and
+                     (self.prog.bodies[q].blocks[b].term.resolved or self.prog.bodies[q].blocks[b].term.callee) == e[1]):
+            # a closure (not called directly here) that restores from a captured snapshot: run it on the caller's state
+            return {(m2, sv, tag, ex) for (m, sv, tag, ex) in st
+                    for (_c, m2) in self.analyse(e[1], e[2], entry_m=m, entry_sv=sv)}
         if k in ('call', 'call_nob'):
             callee, cidx = e[1], e[2]
             summ = self.summary.get((callee, cidx), frozenset())
@@ -264,7 +313,7 @@ class TxnEngine(pair.PairEngine):
             return out
         return st
 
-    def analyse(self, q, ridx, entry_m=0):
+    def analyse(self, q, ridx, entry_m=0, entry_sv=1):
         body = self.prog.bodies[q]
         if (q, ridx) not in self.trace:
             self.trace[(q, ridx)] = self._events(q, ridx)
@@ -273,7 +322,7 @@ class TxnEngine(pair.PairEngine):
         meta = self.body_meta(q)
         exits, edge_cls = meta['exits'], meta['edge_cls']
         cut = self.cut_edges(q)
-        start = (0, 1, None, None)
+        start = (entry_m, entry_sv, None, None)
         state_in = {0: {start}}
         work = deque([0])
         out = set()
@@ -326,7 +375,8 @@ class TxnEngine(pair.PairEngine):
                     cur |= st2
                     if s not in work:
                         work.append(s)
-        self.block_in[(q, ridx)] = state_in
+        if entry_m == 0 and entry_sv == 1:
+            self.block_in[(q, ridx)] = state_in
         return frozenset(out)
 
     @staticmethod
